@@ -198,4 +198,280 @@ theorem metas_tie (c : V → M V) (toks : List V) (wf : Nat) (f : Nat) (its : Li
       | ok l =>
         simp only []
         cases List.foldlM (fun acc kv => do let (k, v) ← pyUnpack2 kv; pySetItem acc k v) s l <;> rfl
+
+/-! ### tags -/
+
+/-- the body of a list comprehension `[self.visit(x) for x in …]` -/
+abbrev appendBody (visit : V → M V) : V → V → M (ForInStep V) := fun x acc => do
+  let r ← visit x
+  let s ← pyAppend acc r
+  pure (ForInStep.yield s)
+
+theorem appendBody_ok (visit : V → M V) (x v : V) (acc : List V) (h : visit x = .ok v) :
+    appendBody visit x (V.list acc) = .ok (.yield (V.list (acc ++ [v]))) := by
+  simp only [appendBody, h]; rfl
+
+/-- the `tag` node of `AT ID` -/
+def tagNode (t : String) (i j : Nat) : PT := .rule "tag" [leaf (.at, i), leaf (.id t, j)]
+
+theorem visitTag_node (self : Self) (t : String) (i j : Nat) (up : List PT) :
+    visitTag self (.ctx (tagNode t i j) up) = .ok (.str t) := by
+  simp [tagNode, visitTag, ctxAcc_eq acc_tag_ID, runAcc, leaf, isTok, tokType, mkCtx, optV, pyGetText, PT.text, tokText, PT.children]
+  rfl
+
+theorem tags_loop (c : V → M V) (toks : List V) (wf : Nat) (node : PT) (up : List PT) (f : Nat) (its : List ITok) (acc0 : List String) :
+    (parseTags f acc0 (its.map Prod.fst)).2 = ((treeTags f its).2).map Prod.fst ∧
+    ∀ g, PT.depthL (treeTags f its).1 ≤ g →
+      forIn ((treeTags f its).1.map (mkCtx node up)) (V.list (acc0.map V.str)) (appendBody (visitF c toks wf g)) =
+        .ok (V.list ((parseTags f acc0 (its.map Prod.fst)).1.map V.str)) := by
+  fun_induction treeTags f its generalizing acc0 with
+  | case1 ts => exact ⟨rfl, fun g _ => rfl⟩
+  | case2 f i t j rest r ih =>
+    simp only [List.map_cons, parseTags]
+    refine ⟨(ih _).1, fun g hg => ?_⟩
+    simp only [PT.depthL, depth_rule, leaf, depth_tok] at hg
+    obtain ⟨g, rfl⟩ : ∃ g', g = g' + 2 := ⟨g - 2, by omega⟩
+    refine (forIn_cons_ok _ _ _ _ _ (appendBody_ok _ _ (.str t) _ ?_)).trans ?_
+    · exact (visitF_tag c toks wf (g+1) _ _).trans (visitTag_node _ t i j _)
+    · have := (ih (acc0 ++ [t])).2 (g+2) (by simp only [r] at *; omega)
+      simpa using this
+  | case3 f ts hne =>
+    have : parseTags (f+1) acc0 (ts.map Prod.fst) = (acc0, ts.map Prod.fst) := by
+      unfold parseTags
+      split
+      · rename_i t rest heq
+        exfalso
+        obtain ⟨i, r1, rfl, h1⟩ := map_fst_cons heq
+        obtain ⟨j, r2, rfl, h2⟩ := map_fst_cons h1
+        exact hne _ _ _ _ rfl
+      · rfl
+    rw [this]
+    exact ⟨rfl, fun g _ => rfl⟩
+
+theorem treeTags_nodes (f : Nat) (its : List ITok) :
+    ∀ x ∈ (treeTags f its).1, ∃ t i j, x = tagNode t i j := by
+  fun_induction treeTags f its with
+  | case1 ts => intro x hx; cases hx
+  | case2 f i t j rest r ih =>
+    intro x hx
+    rcases List.mem_cons.mp hx with rfl | hx
+    · exact ⟨t, i, j, rfl⟩
+    · exact ih x hx
+  | case3 f ts hne => intro x hx; cases hx
+
+theorem treeTags_isRule (f : Nat) (its : List ITok) (r : String) :
+    ∀ x ∈ (treeTags f its).1, isRule r x = (r == "tag") := by
+  intro x hx
+  obtain ⟨t, i, j, rfl⟩ := treeTags_nodes f its x hx
+  simp only [tagNode, isRule]
+  by_cases h : r = "tag"
+  · subst h; rfl
+  · have h' : ¬ "tag" = r := fun e => h e.symm
+    rw [beq_eq_false_iff_ne.mpr h, beq_eq_false_iff_ne.mpr h']
+
+theorem treeTags_isTok (f : Nat) (its : List ITok) (r : String) :
+    ∀ x ∈ (treeTags f its).1, isTok r x = false := by
+  intro x hx
+  obtain ⟨t, i, j, rfl⟩ := treeTags_nodes f its x hx
+  rfl
+
+/-- the list comprehension `[self.visit(tag) for tag in ctx.tag()]` over the nodes of `treeTags` -/
+theorem tags_tie (c : V → M V) (toks : List V) (wf : Nat) (f : Nat) (its : List ITok) :
+    (parseTags f [] (its.map Prod.fst)).2 = ((treeTags f its).2).map Prod.fst ∧
+    (∀ x ∈ (treeTags f its).1, isRule "tag" x = true) ∧
+    ∀ g node up, PT.depthL (treeTags f its).1 ≤ g →
+      forIn ((treeTags f its).1.map (mkCtx node up)) (V.list []) (appendBody (visitF c toks wf g)) =
+        .ok (V.list ((parseTags f [] (its.map Prod.fst)).1.map V.str)) :=
+  ⟨(tags_loop c toks wf (.tok "" "" 0) [] f its []).1, fun x hx => treeTags_isRule f its "tag" x hx,
+   fun g node up hg => (tags_loop c toks wf node up f its []).2 g hg⟩
+
+
+/-! ### cias -/
+
+/-- the body of `for cia in ctx.cia(): risk.update(self.visit(cia))` -/
+abbrev updateBody (visit : V → M V) : V → V → M (ForInStep V) := fun x acc => do
+  let r ← visit x
+  let s ← pyUpdate acc r
+  pure (ForInStep.yield s)
+
+theorem isCiaTok_ciaTok (t : Tok) : isCiaTok t = (ciaTok t).isSome := by cases t <;> rfl
+
+theorem visitCia_node (self : Self) (t : ITok) (r : Bool × Bool × Bool) (h : ciaTok t.1 = some r) (up : List PT) (acc : Bool × Bool × Bool) :
+    ∃ d, visitCia self (.ctx (.rule "cia" [leaf t]) up) = .ok d ∧ pyUpdate (rRisk acc) d = .ok (rRisk (riskOr acc r)) := by
+  obtain ⟨t, i⟩ := t
+  obtain ⟨a1, a2, a3⟩ := acc
+  cases t <;> simp only [ciaTok, Option.some.injEq, reduceCtorEq] at h <;> subst h
+  · refine ⟨.dict [("isConfidentiality", .bool true)], ?_, ?_⟩
+    · simp [visitCia, ctxAcc_eq acc_cia_C, ctxAcc_eq acc_cia_I, ctxAcc_eq acc_cia_A, runAcc, leaf, isTok, tokType, mkCtx, optV, PT.children, truthy]
+      rfl
+    · simp [rRisk, pyUpdate, dictPutAll, dictPut, riskOr]
+      rfl
+  · refine ⟨.dict [("isIntegrity", .bool true)], ?_, ?_⟩
+    · simp [visitCia, ctxAcc_eq acc_cia_C, ctxAcc_eq acc_cia_I, ctxAcc_eq acc_cia_A, runAcc, leaf, isTok, tokType, mkCtx, optV, PT.children, truthy]
+      rfl
+    · simp [rRisk, pyUpdate, dictPutAll, dictPut, riskOr]
+      rfl
+  · refine ⟨.dict [("isAvailability", .bool true)], ?_, ?_⟩
+    · simp [visitCia, ctxAcc_eq acc_cia_C, ctxAcc_eq acc_cia_I, ctxAcc_eq acc_cia_A, runAcc, leaf, isTok, tokType, mkCtx, optV, PT.children, truthy]
+      rfl
+    · simp [rRisk, pyUpdate, dictPutAll, dictPut, riskOr]
+      rfl
+
+theorem updateBody_cia (c : V → M V) (toks : List V) (wf g : Nat) (t : ITok) (r : Bool × Bool × Bool) (hr : ciaTok t.1 = some r)
+    (node : PT) (up : List PT) (acc0 : Bool × Bool × Bool) :
+    updateBody (visitF c toks wf (g+2)) (mkCtx node up (.rule "cia" [leaf t])) (rRisk acc0) =
+      .ok (.yield (rRisk (riskOr acc0 r))) := by
+  obtain ⟨d, hd, hu⟩ := visitCia_node (selfAt c toks wf (g+1)) t r hr (node :: up) acc0
+  simp only [updateBody, mkCtx, visitF_cia, hd]
+  simp only [bind, Except.bind, hu]; rfl
+
+def ciaNodes (node : PT) (up : List PT) (cs : List PT) : List V := (cs.filter (isRule "cia")).map (mkCtx node up)
+
+theorem cias_loop (c : V → M V) (toks : List V) (wf : Nat) (node : PT) (up : List PT) (f : Nat) (its : List ITok)
+    (acc0 : Bool × Bool × Bool) :
+    match treeCias f its with
+    | none => parseCias f acc0 (its.map Prod.fst) = none
+    | some (cs, irest) =>
+      ∃ r, parseCias f acc0 (its.map Prod.fst) = some (r, irest.map Prod.fst) ∧
+        ∀ g, PT.depthL cs ≤ g →
+          forIn (ciaNodes node up cs) (rRisk acc0) (updateBody (visitF c toks wf g)) = .ok (rRisk r) := by
+  fun_induction treeCias f its generalizing acc0 with
+  | case1 ts => rfl
+  | case2 f t i rest ht ih =>
+    rw [isCiaTok_ciaTok, Option.isSome_iff_exists] at ht
+    obtain ⟨r, hr⟩ := ht
+    have ih := ih (riskOr acc0 r)
+    simp only [List.map_cons, parseCias, hr, Option.bind_some]
+    cases hrec : treeCias f rest with
+    | none => rw [hrec] at ih; simpa using ih
+    | some p =>
+      obtain ⟨cs, irest⟩ := p
+      rw [hrec] at ih
+      obtain ⟨r', hp, hv⟩ := ih
+      refine ⟨r', hp, fun g hg => ?_⟩
+      simp only [PT.depthL, depth_rule, leaf, depth_tok] at hg
+      obtain ⟨g, rfl⟩ : ∃ g', g = g' + 2 := ⟨g - 2, by omega⟩
+      have hstep := updateBody_cia c toks wf g t r hr node up acc0
+      have hcs : ciaNodes node up (PT.rule "cia" [leaf t] :: leaf (Tok.comma, i) :: cs) =
+          mkCtx node up (.rule "cia" [leaf t]) :: ciaNodes node up cs := rfl
+      rw [hcs]
+      refine (forIn_cons_ok _ _ _ _ _ hstep).trans (hv _ (by omega))
+  | case3 f t i rest ht =>
+    rw [isCiaTok_ciaTok] at ht
+    simp only [List.map_cons, parseCias]
+    cases hc : ciaTok t.1 with
+    | none => rfl
+    | some r => simp [hc] at ht
+  | case4 f t i rest ht =>
+    rw [isCiaTok_ciaTok, Option.isSome_iff_exists] at ht
+    obtain ⟨r, hr⟩ := ht
+    simp only [List.map_cons, parseCias, hr, Option.map_some]
+    refine ⟨_, rfl, fun g hg => ?_⟩
+    simp only [PT.depthL, depth_rule, leaf, depth_tok] at hg
+    obtain ⟨g, rfl⟩ : ∃ g', g = g' + 2 := ⟨g - 2, by omega⟩
+    have hstep := updateBody_cia c toks wf g t r hr node up acc0
+    have hcs : ciaNodes node up [PT.rule "cia" [leaf t], leaf (Tok.rcurly, i)] = [mkCtx node up (.rule "cia" [leaf t])] := rfl
+    rw [hcs]
+    exact (forIn_cons_ok _ _ _ _ _ hstep).trans rfl
+  | case5 f t i rest ht =>
+    rw [isCiaTok_ciaTok] at ht
+    simp only [List.map_cons, parseCias]
+    cases hc : ciaTok t.1 with
+    | none => rfl
+    | some r => simp [hc] at ht
+  | case6 f ts h1 h2 =>
+    show parseCias (f+1) acc0 (ts.map Prod.fst) = none
+    unfold parseCias
+    split
+    · rename_i t rest heq
+      exfalso
+      obtain ⟨i, r1, rfl, hh1⟩ := map_fst_cons heq
+      obtain ⟨j, r2, rfl, hh2⟩ := map_fst_cons hh1
+      exact h1 _ _ _ rfl
+    · rename_i t rest heq
+      exfalso
+      obtain ⟨i, r1, rfl, hh1⟩ := map_fst_cons heq
+      obtain ⟨j, r2, rfl, hh2⟩ := map_fst_cons hh1
+      exact h2 _ _ _ rfl
+    · rfl
+
+/-- the `cias` node: LCURLY and the children `treeCias` builds -/
+def ciasNode (j : Nat) (cs : List PT) : PT := .rule "cias" (leaf (.lcurly, j) :: cs)
+
+theorem cias_none (f : Nat) (its : List ITok) (h : treeCias f its = none) :
+    parseCias f (false, false, false) (its.map Prod.fst) = none := by
+  have := cias_loop (fun _ => .ok .none) [] 0 (.tok "" "" 0) [] f its (false, false, false)
+  rw [h] at this; exact this
+
+theorem cias_tie (c : V → M V) (toks : List V) (wf : Nat) (f : Nat) (its : List ITok) (cs : List PT) (irest : List ITok)
+    (h : treeCias f its = some (cs, irest)) :
+    ∃ r, parseCias f (false, false, false) (its.map Prod.fst) = some (r, irest.map Prod.fst) ∧
+      ∀ g j up, (ciasNode j cs).depth ≤ g → visitF c toks wf g (.ctx (ciasNode j cs) up) = .ok (rRisk r) := by
+  have hl := fun node up => cias_loop c toks wf node up f its (false, false, false)
+  simp only [h] at hl
+  obtain ⟨r, hp, -⟩ := hl (.tok "" "" 0) []
+  refine ⟨r, hp, fun g j up hg => ?_⟩
+  obtain ⟨r', hp', hv⟩ := hl (ciasNode j cs) up
+  obtain rfl : r' = r := by rw [hp] at hp'; simp at hp'; exact hp'.symm
+  simp only [ciasNode, depth_rule, PT.depthL] at hg
+  obtain ⟨g, rfl⟩ : ∃ g', g = g' + 1 := ⟨g - 1, by omega⟩
+  have hv := hv g (by omega)
+  simp only [ciasNode] at hv ⊢
+  rw [visitF_cias]
+  unfold visitCias
+  rw [ctxAcc_eq acc_cias_cia]
+  simp only [runAcc, PT.children]
+  rw [show pyDict [(V.str "isConfidentiality", V.bool false), (V.str "isIntegrity", V.bool false), (V.str "isAvailability", V.bool false)] = .ok (rRisk (false, false, false)) from rfl]
+  rw [show List.filter (isRule "cia") (leaf (Tok.lcurly, j) :: cs) = List.filter (isRule "cia") cs from rfl]
+  simp only [pure_bind, pyIter]
+  simp only [ciaNodes] at hv
+  show (Except.ok (rRisk (false, false, false)) >>= fun x => _) = _
+  simp only [show ∀ (α β : Type) (a : α) (k : α → M β), (Except.ok a >>= k) = k a from fun _ _ _ _ => rfl, hv]
+  rfl
+
+/-! ### steptype -/
+
+theorem steptype_tie (c : V → M V) (toks : List V) (wf : Nat) (t : ITok) (ty : String) (h : stepType t.1 = some ty)
+    (g : Nat) (up : List PT) (hg : 2 ≤ g) :
+    visitF c toks wf g (.ctx (.rule "steptype" [leaf t]) up) = .ok (.str ty) := by
+  obtain ⟨g, rfl⟩ : ∃ g', g = g' + 1 := ⟨g - 1, by omega⟩
+  rw [visitF_steptype]
+  obtain ⟨t, i⟩ := t
+  cases t <;> simp only [stepType, Option.some.injEq, reduceCtorEq] at h <;> subst h <;>
+    simp [visitSteptype, ctxAcc_eq acc_steptype_OR, ctxAcc_eq acc_steptype_AND, ctxAcc_eq acc_steptype_HASH,
+      ctxAcc_eq acc_steptype_EXISTS, ctxAcc_eq acc_steptype_NOTEXISTS, runAcc, leaf, isTok, tokType, mkCtx, optV,
+      PT.children, truthy] <;> rfl
+
+/-! ### include, define, field, linkname -/
+
+theorem include_tie (c : V → M V) (toks : List V) (wf : Nat) (p : String) (i j : Nat) (g : Nat) (up : List PT) (hg : 2 ≤ g) :
+    visitF c toks wf g (.ctx (.rule "include" [leaf (.kwInclude, i), leaf (.str p, j)]) up) =
+      .ok (.tuple [.str "include", .str (stripQuotes p)]) := by
+  obtain ⟨g, rfl⟩ : ∃ g', g = g' + 1 := ⟨g - 1, by omega⟩
+  rw [visitF_include]
+  simp [visitInclude, ctxAcc_eq acc_include_STRING, runAcc, leaf, isTok, tokType, mkCtx, optV, pyGetText, PT.text, tokText, PT.children]
+  rfl
+
+theorem define_tie (c : V → M V) (toks : List V) (wf : Nat) (k v : String) (i j l m : Nat) (g : Nat) (up : List PT) (hg : 2 ≤ g) :
+    visitF c toks wf g (.ctx (.rule "define" [leaf (.hash, i), leaf (.id k, j), leaf (.colon, l), leaf (.str v, m)]) up) =
+      .ok (.tuple [.str "defines", rMeta [(k, stripQuotes v)]]) := by
+  obtain ⟨g, rfl⟩ : ∃ g', g = g' + 1 := ⟨g - 1, by omega⟩
+  rw [visitF_define]
+  simp [visitDefine, ctxAcc_eq acc_define_STRING, ctxAcc_eq acc_define_ID, runAcc, leaf, isTok, tokType, mkCtx, optV, pyGetText, PT.text, tokText, PT.children]
+  rfl
+
+theorem field_tie (c : V → M V) (toks : List V) (wf : Nat) (n : String) (i j k : Nat) (g : Nat) (up : List PT) (hg : 2 ≤ g) :
+    visitF c toks wf g (.ctx (.rule "field" [leaf (.lsquare, i), leaf (.id n, j), leaf (.rsquare, k)]) up) = .ok (.str n) := by
+  obtain ⟨g, rfl⟩ : ∃ g', g = g' + 1 := ⟨g - 1, by omega⟩
+  rw [visitF_field]
+  simp [visitField, ctxAcc_eq acc_field_ID, runAcc, leaf, isTok, tokType, mkCtx, optV, pyGetText, PT.text, tokText, PT.children]
+  rfl
+
+theorem linkname_tie (c : V → M V) (toks : List V) (wf : Nat) (n : String) (i : Nat) (g : Nat) (up : List PT) (hg : 2 ≤ g) :
+    visitF c toks wf g (.ctx (.rule "linkname" [leaf (.id n, i)]) up) = .ok (.str n) := by
+  obtain ⟨g, rfl⟩ : ∃ g', g = g' + 1 := ⟨g - 1, by omega⟩
+  rw [visitF_linkname]
+  simp [visitLinkname, ctxAcc_eq acc_linkname_ID, runAcc, leaf, isTok, tokType, mkCtx, optV, pyGetText, PT.text, tokText, PT.children]
+  rfl
+
 end MalVerif.Py.Visitor
